@@ -110,9 +110,21 @@ Qed.
 Print Assumptions C02E_accepted_package_wf_partial.
 
 (* 7. per pass, the fact the composition rests on (each for an ARBITRARY module, nothing assumed valid):
+      Orphanage - after it, every leaf of every connection denotes something the module owns (or is a NoConn);
       ResolvePortRefs - a successful allocation plan resolved the group of every reference that was taken
       (create_source found the port it copies: a reference to a non-existent port fails here; handle_noconn: ENoConn);
       the exporter - with every module instantiated below the top one, export_module_name saw every module name. *)
+Theorem C02E_orphanage_owned self m x c lw : orphanage_check self m = Ok tt ->
+  In x (m_insts m) -> In c (i_conns x) -> In lw (sx_leaves (snd c)) ->
+  match assocN (fst lw) (m_leaves m) with
+  | Some (LSig s) => exists w, sig_width m s = Some w                 (* a Signal the module declares *)
+  | Some (LRef i _) => exists y, find_inst (m_insts m) i = Some y     (* a port of an Instance of the module *)
+  | Some (LNc _) => True
+  | None => False
+  end.
+Proof. intros H. exact (orph_leaf self m H x c lw). Qed.
+Print Assumptions C02E_orphanage_owned.
+
 Theorem C02E_portrefs_groups_resolved d ncn m keys allocs q :
   plan d ncn m keys (seeds m) [] = Ok allocs -> In (SRef q) (seeds m) ->
   exists g gr, gid m keys q = Some g /\ group_res m keys g = Ok gr /\
